@@ -31,6 +31,17 @@ CLAIMED.update({
          "DESIGN.md §4 C06"),
 })
 
+CLAIMED.update({
+ "C02": ("differential monitor over restart masks (live session vs ReadSession(marshal) at chosen waits) + marshal/read/marshal fixed point",
+         "Runtime monitoring: each generated history is executed from identical clock/UUID/random sources under different restart masks (quick: all-ones + seeded masks; thorough: all 2^k masks for k<=6) and the per-sprint events, segments and session JSON must be byte-equal to the execution that keeps the session alive; at every hand-back marshal(read(marshal(s)))==marshal(s). Held on the executions observed only.",
+         "Trusts: generator never references @webhook/@legacy_extra after a wait (the statement's exemptions); source state is restored after every ReadSession so only Resume consumes clock/UUID ticks.",
+         "DESIGN.md §4 C02"),
+ "C10": ("differential monitor (session JSON before/after rejected resumes, history with injected rejected resumes vs clean history) + fault enumeration over the asset store",
+         "Runtime monitoring: at every reachable state every resume type is tried; a resume rejected with an engine error must leave the live and the re-read session JSON unchanged and produce no events, and the history with all rejected resumes injected must equal the clean history; at every wait the session is restored against 8 kinds of faulted assets / options / corrupted JSON and resumed: never a panic or Go error, impossible resumption => failed session with failure event. Held on the executions observed only.",
+         "Trusts: json.Marshal(session) as the session's observable state; faults that make the changed definition itself unloadable are skipped; for 'changed but still resumable' faults only no-panic is demanded.",
+         "DESIGN.md §4 C10"),
+})
+
 NOT_YET = {}
 
 def main():
